@@ -4,7 +4,9 @@ M-Store: executable model of crates/cache/src/lib.rs (`Store`).
 Modelled line by line: `open_with_lock` (manifest parse, schema/key test, `on_disk_current`),
 `entry`, `load`/`load_diagnostics` (`read_blob`: magic + version header), `write_blob`
 (content addressed, "exists ⇒ reuse"), `put`, `set_diagnostics`, `keep`, `invalidate`,
-`set_dependents`, `set_tests`, `save` (skip-write shortcut, manifest replace, `gc`).
+`set_dependents`, `set_tests`, `save` (skip-write shortcut, manifest replace, `gc`), and the API as a
+state machine (`Op`, `step`, `run`). The second half is the abstract specification of C29
+(`Spec`, `AState`, `astep`) and the abstraction function (`abs`).
 
 Modelled, not verified (trusted base of C29):
 * BLAKE3 content addressing is *injective naming*: a blob's name is its data.
@@ -48,21 +50,21 @@ structure Manifest where
   schema : Nat
   key : String
   files : Files
-deriving Repr, Inhabited
+deriving DecidableEq, Repr, Inhabited
 
 /-- Filesystem under the store root: manifest file (`none` = absent or unparsable) and blob files
     as (name, content). -/
 structure Disk where
   manifest : Option Manifest
   blobs : List (String × String)
-deriving Repr, Inhabited
+deriving DecidableEq, Repr, Inhabited
 
 structure Mem where
   key : String
   files : Files          -- `manifest.files`
   next : Files           -- `next_files`
   onDiskCurrent : Bool
-deriving Repr, Inhabited
+deriving DecidableEq, Repr, Inhabited
 
 structure Consts where
   schemaVersion : Nat
@@ -153,11 +155,149 @@ def referenced (fs : Files) : List String :=
 def gc (d : Disk) (fs : Files) : Disk :=
   { d with blobs := d.blobs.filter (fun b => (referenced fs).contains b.1) }
 
+/-- The write branch of `save`: replace `manifest.files`, write the manifest, `gc`. -/
+def saveWrite (c : Consts) (d : Disk) (m : Mem) : Disk × Mem :=
+  let d1 : Disk := { d with manifest := some { schema := c.schemaVersion, key := m.key, files := m.next } }
+  (gc d1 m.next, { m with files := m.next, next := [], onDiskCurrent := true })
+
 def save (c : Consts) (d : Disk) (m : Mem) : Disk × Mem :=
   if m.onDiskCurrent && mapEq m.next m.files then
     (d, { m with next := [] })
   else
-    let d1 : Disk := { d with manifest := some { schema := c.schemaVersion, key := m.key, files := m.next } }
-    (gc d1 m.next, { m with files := m.next, next := [], onDiskCurrent := true })
+    saveWrite c d m
+
+/-! ## Operation sequences
+
+The store API as a state machine on `(disk, open store?)`. Operations that need an open store
+are no-ops without one (the driver answers `bad-op`; in Rust they cannot be written). -/
+
+inductive Op where
+  | open (key : String)
+  | drop
+  | put (p h : String) (blob : Option String)
+  | setDiagnostics (p blob : String)
+  | keep (p : String)
+  | invalidate (p : String)
+  | setDependents (p : String) (ds : List String)
+  | setTests (p : String) (ts : List String)
+  | save
+deriving DecidableEq, Repr, Inhabited
+
+abbrev State := Disk × Option Mem
+
+/-- Fresh cache directory, no store open. -/
+def init : State := ({ manifest := none, blobs := [] }, none)
+
+def step (c : Consts) (s : State) (o : Op) : State :=
+  match o, s.2 with
+  | .open key, _ => (s.1, some (openStore c s.1 key))
+  | .drop, _ => (s.1, none)
+  | .put p h b, some m => let r := put c s.1 m p h b; (r.1, some r.2)
+  | .setDiagnostics p b, some m => let r := setDiagnostics c s.1 m p b; (r.1, some r.2)
+  | .keep p, some m => (s.1, some (keep m p))
+  | .invalidate p, some m => (s.1, some (invalidate m p))
+  | .setDependents p ds, some m => (s.1, some (setDependents m p ds))
+  | .setTests p ts, some m => (s.1, some (setTests m p ts))
+  | .save, some m => let r := save c s.1 m; (r.1, some r.2)
+  | _, none => s
+
+def run (c : Consts) (s : State) (ops : List Op) : State := ops.foldl (step c) s
+
+/-! ## Abstract specification (C29): a versioned key-value map
+
+`Spec` is "the last saved build": the key it was saved under and, per source path, the entry
+together with the *payload bytes* of its fragment / diagnostics blobs. `AState`/`astep` is the
+reference machine over which the property is stated: it stores payloads directly, knows nothing
+about blob files, content addressing, the skip-write shortcut or garbage collection. -/
+
+structure AbsEntry where
+  hash : String
+  dependents : List String
+  tests : List String
+  fragment : Option String      -- payload bytes
+  diagnostics : Option String   -- payload bytes
+deriving DecidableEq, Repr, Inhabited
+
+abbrev AbsFiles := String → Option AbsEntry
+
+abbrev Spec := Option (String × AbsFiles)
+
+def AbsFiles.empty : AbsFiles := fun _ => none
+
+def AbsFiles.set (f : AbsFiles) (p : String) (e : AbsEntry) : AbsFiles :=
+  fun q => if p = q then some e else f q
+
+def AbsFiles.modify (f : AbsFiles) (p : String) (g : AbsEntry → AbsEntry) : AbsFiles :=
+  fun q => if p = q then (f q).map g else f q
+
+structure ASession where
+  key : String
+  prev : AbsFiles     -- what `entry`/`load`/`load_diagnostics` answer
+  next : AbsFiles     -- the build in progress
+
+structure AState where
+  saved : Spec
+  sess : Option ASession
+
+def ainit : AState := { saved := none, sess := none }
+
+/-- What a store opened with `key` sees of the last saved build. -/
+def Spec.visible (s : Spec) (key : String) : AbsFiles :=
+  match s with
+  | some (k, f) => if k = key then f else AbsFiles.empty
+  | none => AbsFiles.empty
+
+def astep (a : AState) (o : Op) : AState :=
+  match o, a.sess with
+  | .open key, _ =>
+    { a with sess := some { key := key, prev := a.saved.visible key, next := AbsFiles.empty } }
+  | .drop, _ => { a with sess := none }
+  | .put p h b, some s =>
+    let e : AbsEntry := { hash := h, dependents := [], tests := [], fragment := b, diagnostics := none }
+    { a with sess := some { s with next := s.next.set p e } }
+  | .setDiagnostics p b, some s =>
+    match s.next p with
+    | none => a
+    | some e =>
+      match e.fragment with
+      | none => a
+      | some _ =>
+        { a with sess := some { s with next := s.next.modify p (fun e => { e with diagnostics := some b }) } }
+  | .keep p, some s =>
+    match s.prev p with
+    | none => a
+    | some e => { a with sess := some { s with next := s.next.set p e } }
+  | .invalidate p, some s =>
+    { a with sess := some { s with next := s.next.modify p (fun e => { e with fragment := none }) } }
+  | .setDependents p ds, some s =>
+    { a with sess := some { s with next := s.next.modify p (fun e => { e with dependents := ds }) } }
+  | .setTests p ts, some s =>
+    { a with sess := some { s with next := s.next.modify p (fun e => { e with tests := ts }) } }
+  | .save, some s =>
+    { saved := some (s.key, s.next), sess := some { s with prev := s.next, next := AbsFiles.empty } }
+  | _, none => a
+
+def arun (a : AState) (ops : List Op) : AState := ops.foldl astep a
+
+/-! ### Abstraction function -/
+
+def absEntry (c : Consts) (d : Disk) (e : Entry) : AbsEntry :=
+  { hash := e.hash, dependents := e.dependents, tests := e.tests,
+    fragment := load c d e, diagnostics := loadDiagnostics c d e }
+
+def absFiles (c : Consts) (d : Disk) (fs : Files) : AbsFiles :=
+  fun p => (lookup fs p).map (absEntry c d)
+
+/-- The last saved build as the disk records it (a manifest of a foreign schema is no build). -/
+def absDisk (c : Consts) (d : Disk) : Spec :=
+  match d.manifest with
+  | some m => if m.schema = c.schemaVersion then some (m.key, absFiles c d m.files) else none
+  | none => none
+
+def absMem (c : Consts) (d : Disk) (m : Mem) : ASession :=
+  { key := m.key, prev := absFiles c d m.files, next := absFiles c d m.next }
+
+def abs (c : Consts) (s : State) : AState :=
+  { saved := absDisk c s.1, sess := s.2.map (absMem c s.1) }
 
 end VerylModel.Store
